@@ -67,7 +67,17 @@ make_randomable!(isize, usize);
 impl Randomable<f64> for Range<f64> {
     fn gen_from_u64(self, rng: u64) -> f64 {
         assert!(!self.is_empty());
-        let len = self.end - self.start;
-        (rng as f64 / u64::MAX as f64) * len + self.start
+        // 53 random bits give t in [0, 1); interpolating avoids overflow of end - start
+        let t = (rng >> 11) as f64 / (1u64 << 53) as f64;
+        let x = self.start * (1.0 - t) + self.end * t;
+        if x < self.start {
+            self.start
+        } else if x < self.end {
+            x
+        } else {
+            // rounding landed on end: take the largest value below it
+            let bits = self.end.to_bits();
+            f64::from_bits(if self.end > 0.0 { bits - 1 } else if self.end < 0.0 { bits + 1 } else { (1u64 << 63) | 1 })
+        }
     }
 }
